@@ -75,6 +75,8 @@ func (c17) Cases(tier string, seed int64, kf *KnownFindings) []Case {
 		add(Case{Kind: "nilmaps", K: ctor, N: 4, M: 8, Count: 40, Opt: []string{"race"}})
 		add(Case{Kind: "abandon", K: ctor, N: 1, Count: 6})
 		add(Case{Kind: "abandon", K: ctor, N: 4, Count: 6})
+		add(Case{Kind: "dropped", K: ctor, N: 0, Count: 5})
+		add(Case{Kind: "dropped", K: ctor, N: 2, Count: 5})
 	}
 	return cs
 }
@@ -539,6 +541,8 @@ func (c17) Run(c Case, env *Env) Result {
 		c17nilmaps(c, env, &res, viol)
 	case "abandon":
 		c17abandon(c, env, &res, viol, tm, nm)
+	case "dropped":
+		c17dropped(c, env, &res, viol, tm, nm)
 	case "fresh":
 		p := newPool(c.K, 0, tm, nm)
 		for i := 0; i < 5; i++ {
@@ -939,4 +943,65 @@ func c17abandon(c Case, env *Env, res *Result, viol func(string, string), tm map
 	res.NT = append(res.NT, Hash64(fmt.Sprint("abandon", c.K, c.N)), Hash64(fmt.Sprint("abandon2", c.K, c.N)))
 	res.Count("abandoned_objects", int64(id))
 	res.Count("garbage_collections_forced", int64(3*c.Count))
+}
+
+// ---- an object returned to a FULL pool is dropped: the pool keeps no reference to it
+
+// c17dropped fills a pool, returns Count more objects than it can hold, forgets them and forces
+// collections: every surplus object must become collectable (observed through finalizers) while the
+// pool itself stays alive. Verdict on collection cycles, not on time: a dropped object's finalizer is
+// queued by the first collection after the drop; 100 forced collections with a yield after each are
+// given before the object counts as retained.
+func c17dropped(c Case, env *Env, res *Result, viol func(string, string), tm map[string]reflect.Type, nm map[string]string) {
+	p := newPool(c.K, c.N, tm, copyNames(nm))
+	var finalized int64
+	total := c.N + c.Count
+	func() {
+		objs := make([]interface{}, total)
+		for i := range objs {
+			objs[i] = p.Get() // the pool is empty: new objects
+		}
+		for _, o := range objs {
+			switch t := o.(type) {
+			case *hessian.Encoder:
+				runtime.SetFinalizer(t, func(*hessian.Encoder) { atomic.AddInt64(&finalized, 1) })
+			case *hessian.Decoder:
+				runtime.SetFinalizer(t, func(*hessian.Decoder) { atomic.AddInt64(&finalized, 1) })
+			default:
+				// a Serializer is an interface over a pointer type of the library
+				if rv := reflect.ValueOf(o); rv.Kind() == reflect.Ptr {
+					func() {
+						defer func() { recover() }()
+						runtime.SetFinalizer(o, func(interface{}) { atomic.AddInt64(&finalized, 1) })
+					}()
+				}
+			}
+		}
+		for _, o := range objs {
+			p.Return(o) // the first N are kept, the rest meets a full pool
+		}
+	}()
+	res.Evals++
+	want := int64(c.Count)
+	for cycle := 0; cycle < 100 && atomic.LoadInt64(&finalized) < want; cycle++ {
+		runtime.GC()
+		runtime.Gosched()
+		time.Sleep(time.Millisecond)
+	}
+	got := atomic.LoadInt64(&finalized)
+	if got < want {
+		viol("pool-retains-dropped-objects", fmt.Sprintf("pool of size %d: %d objects were returned, so %d of them met a full pool and were dropped; after 100 forced collections only %d were collected - the pool (still alive) keeps references to dropped objects", c.N, total, want, got))
+	}
+	if got > want {
+		viol("pool-loses-kept-objects", fmt.Sprintf("pool of size %d: %d objects were collected although only %d had been dropped", c.N, got, want))
+	}
+	// the pool is still usable and still hands out what it kept
+	for i := 0; i < c.N; i++ {
+		if o := p.Get(); o == nil {
+			viol("nil-object", "Get returned nil")
+		}
+	}
+	runtime.KeepAlive(p)
+	res.NT = append(res.NT, Hash64(fmt.Sprint("dropped", c.K, c.N)), Hash64(fmt.Sprint("dropped2", c.K, c.N)))
+	res.Count("objects_dropped_on_a_full_pool_and_collected", got)
 }
